@@ -112,4 +112,48 @@ def stub_fidelity():
                     raise AssertionError("stub fidelity: executed items differ: real %r sim %r (n=%d p=%d fail=%r)"
                                          % (sorted(seen_real), sorted(seen_sim), n_items, procs, fail_at))
                 checked += 1
-    return {"configurations_compared_with_real_ThreadPool": checked, "agree": True}
+    # imap / imap_unordered: results of a fully consumed iteration, and where a failure surfaces
+    import random
+
+    lazy_checked = 0
+    for n_items in (0, 1, 5, 12):
+        for procs in (1, 3):
+            for chunksize in (1, 2, 5):
+                for fail_at in (None, 0, n_items // 2):
+                    if fail_at is not None and not (0 <= fail_at < n_items):
+                        continue
+
+                    def g(x):
+                        if x == fail_at:
+                            raise Boom(x)
+                        return x + 100
+
+                    def consume(pool_cls, method):
+                        pool = pool_cls(procs)
+                        got = []
+                        try:
+                            try:
+                                for r in getattr(pool, method)(g, range(n_items), chunksize):
+                                    got.append(r)
+                                return ("ok", got if method == "imap" else sorted(got))
+                            except Boom as e:
+                                # ordered imap: everything before the failing CHUNK was delivered
+                                return ("boom", e.args, got if method == "imap" else None)
+                        finally:
+                            pool.close()
+                            pool.join()
+
+                    for method in ("imap", "imap_unordered"):
+                        r = consume(real_cls, method)
+                        with sched.Session({"strategy": "rtc"}, rng=random.Random(n_items + procs)) as sess:
+                            s_ = consume(sched.SimPool, method)
+                        sched.ACTIVE = sess
+                        try:
+                            sess.finish()
+                        finally:
+                            sched.ACTIVE = None
+                        if r != s_:
+                            raise AssertionError("stub fidelity (%s): real %r vs sim %r (n=%d p=%d cs=%d fail=%r)"
+                                                 % (method, r, s_, n_items, procs, chunksize, fail_at))
+                        lazy_checked += 1
+    return {"configurations_compared_with_real_ThreadPool": checked, "lazy_map_configurations": lazy_checked, "agree": True}
